@@ -1,47 +1,71 @@
 """C12 — every engine returns the trajectory it actually ran.
 
-Theorems: coq/theorems/C12.v (models coq/model/PollM.v + EngineM.v, proofs coq/proofs/PollP.v).
+Theorems: coq/theorems/C12.v (model coq/model/PollM.v, proofs coq/proofs/PollP.v).
 Tie: the REAL engine classes (LAMMPSEngine, CP2KEngine, GromacsEngine through the fake
 programs py/plugins/fake_{lmp,cp2k,gmx}.py; ASEEngine, TurtleMDEngine and the lattice plug-in
 in-process) are run on generated phase points / interfaces / limits / arrival schedules / exit
-codes; outcome (returned / raised, success, every frame's order, config index, vel_rev, whether
-the program had to be killed) is compared with the extracted model given the same trajectory
-and schedule; the property's own statement is evaluated on what the implementation returned.
+codes; the outcome (returned / raised, success, every frame's order, config index, vel_rev,
+whether the program had to be killed) is compared with the extracted model given the same
+trajectory and schedule; the property's own statement is evaluated on what the implementation
+returned (every frame's order parameter recomputed from the file + index it references with
+the engine's own calculate_order, first frame, stop rule, success flag, retrace, no live
+child, raise on failure).
 """
 import importlib.util  # noqa: F401
 import itertools
 import json
 import math
 import os
+import re
 import shutil
 
 import common
 
+ENGINES_EXT = ["lammps", "cp2k", "gromacs"]
+ENGINES_IN = ["ase", "turtlemd", "plugin"]
+
 META = {
     "id": "C12",
     "level": "proof",
-    "technique": "Coq theorems over executable models of the engines' polling/pairing loops (all arrival schedules) + lock-step of the extracted model against the real engine classes driven through fake MD programs under controlled schedules + direct oracle (recompute every frame's order parameter from the file it references)",
-    "text": ("Unbounded theorems (any trajectory, order function, interfaces, limit, arrival schedule, exit code) about executable models of the "
-             "LAMMPS, CP2K and GROMACS polling loops and the in-process loop of ASE/TurtleMD/plug-in engines: the path is the prefix of the full "
-             "trajectory up to the first stop (schedule-independent), frame k carries the order parameter of frame k's own positions/velocities/box "
-             "and config index k, a non-zero exit without a stop raises, every run ends with the program exited or killed, backward propagation "
-             "under reversible dynamics retraces. The models are tied to /repo by running the real engine classes against fake lmp/cp2k/gmx "
-             "executables (real file formats, hand-shake-synchronised arrival schedules incl. half-written frames, SIGTERM, exit codes, varying "
-             "boxes) and in-process (ASE free flight, TurtleMD, lattice plug-in) and comparing with the extracted model; the statement itself is "
-             "evaluated on every returned path (first frame = given point, recomputed order = stored order, stop rule, success flag, retrace, "
-             "no live child, raise on failure)."),
-    "note": ("Trusted: Coq kernel; extraction + OCaml driver; the fake programs stand for the real ones (format and timing contract only); "
-             "kernel-level process/signal behaviour is observed, not proved. Byte-level readers are C13's (frames are visible or not). "
-             "Corner 'crossing frame is also the maxlen-th' is left to C09 (L11): theorems only say success => outside, and outside & below the "
-             "limit => success. Leads L2 (LAMMPS box pairing) and L3 (GROMACS double velocity negation) are model parameters fixL2/fixL3: "
-             "theorems for the repaired variant, refutation witnesses for the original."),
-    "design_ref": "4/C12",
+    "technique": "Coq theorems over executable models of the engines' polling/pairing loops and of the add_to_path stop rule (all order streams, all arrival schedules) + lock-step of the extracted model against the real engine classes driven through fake MD programs under hand-shake-synchronised schedules (LAMMPS, CP2K, GROMACS) and in-process (ASE, TurtleMD, plug-in) + direct oracle (recompute every frame's order parameter from the file it references)",
+    "text": ("Unbounded theorems (any order function, interfaces, limit, trajectory, arrival schedule, exit code) about executable models of "
+             "EngineBase.add_to_path/propagate (prefix until the first frame outside or the maxlen-th, success iff outside, first frame = given "
+             "point), of the LAMMPS polling loop (any schedule gives the stop-rule prefix of the un-chunked trajectory, frame k paired with box k "
+             "and config index k; refutation witness for the old pop() pairing), of the CP2K loop (two readers, min(len) pairing), of the GROMACS "
+             "TRR polling state machine (any sequence of observed file sizes; refutation witness for the double velocity negation with "
+             "reverse=True), of the ASE/TurtleMD/plug-in subcycle loop, of 'non-zero exit without a stop never returns normally', and of "
+             "backward-retraces-forward for abstract reversible dynamics. The models are tied to /repo by running the real engine classes against "
+             "fake lmp/cp2k/gmx executables (real file formats, synchronised arrival schedules incl. half-written frames, SIGTERM, exit codes, "
+             "varying boxes) and in-process (ASE harmonic velocity Verlet, TurtleMD Langevin double well, lattice plug-in) and comparing with the "
+             "extracted model; the statement itself is evaluated on every returned path."),
+    "note": ("Engines covered by the correspondence: LAMMPS, CP2K, GROMACS (real engine classes against fake lmp/cp2k/gmx executables), ASE, "
+             "TurtleMD, plug-in (in-process); AMS is not covered. Trusted: Coq kernel; extraction + OCaml driver; the fake programs stand for "
+             "the real ones (file format and timing contract only); kernel-level process/signal behaviour is observed (process table, SIGTERM "
+             "marker), not proved. Byte-level readers are C13's (a frame is visible or not). The stop rule carried by the model is the current "
+             "one (success kept when the crossing frame is also the maxlen-th, fix d6ed295); the shared EngineM.add_to_path is the older rule and "
+             "is linked by C12_contract_old_rule_is_EngineM. Recorded leads are model parameters: fixL2 (LAMMPS pop(0), repaired in /repo), fixL3 "
+             "(GROMACS double velocity negation) and fixL14 (GROMACS wait loop never polls the process); the variant /repo exhibits is detected by "
+             "replaying the witness on the implementation, the correspondence runs against that variant, and a present defect is reported as a "
+             "VIOLATION with the witness as replay (or as KNOWN-FINDING if known_findings.json registers 'property=C12 ... L3/L14'). GROMACS model "
+             "outcome Hang is outside the *_any_schedule theorem (gres_ok is True for it). TurtleMD only works with the LangevinInertia "
+             "integrator (the engine passes seed= to every integrator), so its dynamics is not reversible and no retrace is checked for it. "
+             "A program that exits with code 0 before a stop makes every polling engine return (False, 'propagating ...') with the frames it "
+             "got (model outcome Trunc): not an engine failure in the sense of the property, compared with the model only. All theorems print "
+             "'Closed under the global context'."),
+    "design_ref": "4/C12, leads L2 L3 (+ L14 found here)",
 }
 LEVEL = "proof"
 
 DEFECTS = {
-    "L2": "LAMMPS: frames arriving together are paired with each other's box (box_trajectory.pop() takes the last box)",
-    "L3": "GROMACS: backward propagation stores the order parameter of the un-reversed velocities (negated twice)",
+    "L3": {"text": ("GROMACS backward propagation (reverse=True) stores the order parameter of the UN-reversed file velocities: "
+                    "_propagate_from negates data['v'] and calculate_order negates it again for vel_rev"),
+           "witness": "file velocity +0.5, vel_rev=False, reverse=True, order=Velocity -> stored -0.5, recomputed from (trajB.trr, k) +0.5",
+           "theorem": "C12_gromacs_double_negation_refuted", "fix": "proposed_fixes/C12_gromacs_velrev.diff"},
+    "L14": {"text": ("GROMACS: when gmx ends after writing a TRR frame header but not its data (crash, full disk) and the header was read "
+                     "while it was still running, get_gromacs_frames waits forever: the inner `while data is None` loop never polls the "
+                     "process, so the failure neither raises nor returns"),
+            "witness": "20 atoms, frame 0 complete, frame 1 header + half of its data, then exit code 1 -> propagate never returns",
+            "theorem": "C12_gromacs_midframe_crash_refuted", "fix": "proposed_fixes/C12_gromacs_midframe_wait.diff"},
 }
 
 
@@ -53,29 +77,39 @@ def dy(rng, lo, hi, den=4):
 
 
 def base_case(engine, rng, nat=2):
-    case = {
+    return {
         "engine": engine,
-        "pos": [[dy(rng, 1, 4), dy(rng, 0, 2), 0.0]] + [[dy(rng, 5, 8), 0.0, 0.0] for _ in range(nat - 1)],
-        "vel": [[rng.choice([0.5, 1.0, -0.5, 0.25, -1.0]), 0.0, 0.0]] + [[rng.choice([0.0, 0.25, -0.25]), 0.0, 0.0] for _ in range(nat - 1)],
+        "pos": [[dy(rng, 1, 4), dy(rng, 0, 2), 0.5]] + [[dy(rng, 5, 8), 0.0, 0.5] for _ in range(nat - 1)],
+        "vel": [[rng.choice([0.5, 1.0, -0.5, 0.25, -1.0]), 0.0, 0.0]]
+               + [[rng.choice([0.0, 0.25, -0.25]), 0.0, 0.0] for _ in range(nat - 1)],
         "timestep": rng.choice([0.5, 1.0, 0.25]),
         "subcycles": rng.choice([1, 2, 3]),
+        "accel": [rng.choice([0.0, 0.25, -0.25, 0.5, -0.5]), 0.0, 0.0],
         "mode": "sync",
     }
-    return case
 
 
-def lammps_box(rng, vary, cols3):
-    lo = [dy(rng, -1, 0), 0.0, -0.5]
-    hi = [dy(rng, 20, 24), 20.0, 21.0]
-    tilt = [0.25, 0.0, -0.5]
-    box, rate = [], []
-    for i in range(3):
-        box += [lo[i], hi[i]] + ([tilt[i]] if cols3 else [])
-        if vary and i == 0:
-            rate += [rng.choice([0.25, -0.25, 0.5]), rng.choice([0.75, -0.5, 1.0])] + ([0.0] if cols3 else [])
-        else:
-            rate += [0.0, 0.0] + ([0.0] if cols3 else [])
-    return box, (rate if vary else None)
+def make_box(engine, rng, vary, wide):
+    """(box numbers in the engine's file representation, per-MD-step rates or None)"""
+    if engine == "lammps":
+        lo = [dy(rng, -1, 0), 0.0, -0.5]
+        hi = [dy(rng, 20, 24), 20.0, 21.0]
+        tilt = [0.25, 0.0, -0.5]
+        box, rate = [], []
+        for i in range(3):
+            box += [lo[i], hi[i]] + ([tilt[i]] if wide else [])
+            if vary and i == 0:
+                rate += [rng.choice([0.25, -0.25, 0.5]), rng.choice([0.75, -0.5, 1.0])] + ([0.0] if wide else [])
+            else:
+                rate += [0.0, 0.0] + ([0.0] if wide else [])
+        return box, (rate if vary else None)
+    if engine == "cp2k":
+        return [dy(rng, 20, 24), 20.0, 21.0], None          # NVT only (documented in cp2k.py)
+    if engine == "gromacs":
+        box = [dy(rng, 20, 24), 20.0, 21.0] + ([0.0, 0.0, 0.25, 0.0, -0.5, 0.5] if wide else [])
+        rate = [rng.choice([0.25, -0.25, 0.5])] + [0.0] * (len(box) - 1)
+        return box, (rate if vary else None)
+    raise ValueError(engine)
 
 
 ORDERS = [
@@ -85,36 +119,44 @@ ORDERS = [
     {"class": "Distance", "index": [0, 1], "periodic": True},
     {"class": "Velocity", "index": 0, "dim": "x"},
 ]
+VEL_DEP = (1, 4)
 
 
-def own_orders(H, case, orderf):
-    mi = H.model_inputs(case, orderf)
-    rv = bool(case.get("reverse", False))
-    return [mi["entries"][(k, (-(k + 1) if rv else (k + 1)), mi["btag"][k])] for k in range(len(mi["frames"]))], mi
+def vel_dependent(order):
+    return order["class"] == "Velocity" or (order["class"] == "LinOrder" and order.get("wv", 0.0) != 0.0)
 
 
 def choose_interfaces(rng, orders, kc):
     """Interfaces such that the first frame outside is frame kc (None = never), if possible."""
     lo, hi = min(orders), max(orders)
+    pad = 3.0
     if kc is None or kc >= len(orders) or kc == 0:
-        return [lo - 3.0, hi + 3.0]
+        return [lo - pad, hi + pad]
     o = orders
     if all(x < o[kc] for x in o[:kc]):
         r = (max(o[:kc]) + o[kc]) / 2 if rng.random() < 0.7 else max(o[:kc])     # strict '>' on the boundary
-        return [lo - 3.0, r]
+        return [lo - pad, r]
     if all(x > o[kc] for x in o[:kc]):
         l = (min(o[:kc]) + o[kc]) / 2 if rng.random() < 0.7 else min(o[:kc])
-        return [l, hi + 3.0]
-    return [lo - 3.0, hi + 3.0]
+        return [l, hi + pad]
+    return [lo - pad, hi + pad]
 
 
 def schedules_small(n):
-    """All ways the n frames can arrive in at most 3 bursts of whole frames (cumulative, in half frames),
-    plus variants with half-written frames."""
+    """All ways the n frames can arrive in at most 3 bursts of whole frames (cumulative, in half frames)."""
     out = [[]]
     for parts in range(1, 4):
         for cuts in itertools.combinations(range(0, n + 1), parts):
             out.append([[2 * c] for c in cuts])
+    return out
+
+
+def schedules_half(n):
+    """All cumulative schedules of at most 3 bursts in HALF-frame units for an n-frame run."""
+    out = []
+    for parts in range(1, 4):
+        for cuts in itertools.combinations(range(0, 2 * n + 1), parts):
+            out.append([[c] for c in cuts])
     return out
 
 
@@ -132,6 +174,7 @@ def random_schedule(rng, n, streams=1):
 def gen_external(H, engine, rng, tier, wdroot):
     """Cases for one external engine.  Exhaustive small scope first, random beyond."""
     cases = []
+    nstream = 2 if engine == "cp2k" else 1
 
     def finish(case, kc, maxlen, sched, **kw):
         case = dict(case)
@@ -139,23 +182,23 @@ def gen_external(H, engine, rng, tier, wdroot):
         case.update(kw)
         orderf = H.make_order(case["order"])
         case["interfaces"] = [-1e9, 1e9]
-        orders, _ = own_orders(H, case, orderf)
-        case["interfaces"] = choose_interfaces(rng, orders, kc)
+        probe = dict(case)
+        probe["frames"] = None
+        probe["write_rest"] = True
+        own = H.model_inputs(probe, orderf)["own"]
+        case["interfaces"] = choose_interfaces(rng, own, kc)
+        sched = [list(e) for e in sched]
+        if nstream == 2:
+            sched = [(e if len(e) == 2 else [e[0], e[0]]) for e in sched]
         case["schedule"] = sched
         case["wd"] = os.path.join(wdroot, f"{engine}_{len(cases)}")
         cases.append(case)
 
-    nstream = 2 if engine == "cp2k" else 1
-
     def mkbox(case, vary, wide):
-        if engine == "lammps":
-            case["box"], case["box_rate"] = lammps_box(rng, vary, wide)
-        else:
-            import checks.c12_boxes as B
-            case["box"], case["box_rate"] = B.box_for(engine, rng, vary, wide)
+        case["box"], case["box_rate"] = make_box(engine, rng, vary, wide)
 
     # ---- exhaustive small scope: every burst schedule of a 4-frame run, crossing at 1/2/never,
-    #      limit below / at / above the crossing, both directions
+    #      limit below / at / above the crossing
     small = base_case(engine, rng)
     small["vel"][0][0] = 0.5
     small["timestep"], small["subcycles"] = 1.0, 1
@@ -163,21 +206,28 @@ def gen_external(H, engine, rng, tier, wdroot):
     mkbox(small, True, False)
     if engine == "lammps":
         small["box_rate"] = [0.25, 0.75, 0, 0, 0, 0]
-    scheds = schedules_small(4)
-    if tier == "quick":
-        scheds = scheds[:: 2]
-    for sched in scheds:
-        for kc, ml in ((2, 3), (None, 3), (1, 3)) if tier == "quick" else ((2, 3), (None, 3), (1, 3), (2, 2), (1, 1)):
-            if nstream == 2:
-                sched2 = [[e[0], max(0, e[0] - 2 * (i % 2))] for i, e in enumerate(sched)]
-            else:
-                sched2 = sched
-            finish(small, kc, ml, sched2, reverse=False)
-    # ---- limits hit exactly, all subcycles, all orders, both directions
+    combos = ((2, 3), (None, 3), (1, 3)) if tier == "quick" else ((2, 3), (None, 3), (1, 3), (2, 2), (1, 1))
+
+    def second_stream(sched, si, n):
+        if nstream != 2:
+            return sched
+        out = []
+        for i, e in enumerate(sched):
+            lag = (i + si) % 3
+            out.append([e[0], max(0, e[0] - 2) if lag == 1 else (min(2 * n, e[0] + 2) if lag == 2 else e[0])])
+        return out
+    for si, sched in enumerate(schedules_small(4)):
+        for kc, ml in combos:
+            finish(small, kc, ml, second_stream(sched, si, 4), reverse=bool(si % 2), vel_rev_in=bool(si % 3 == 0))
+    # every schedule of a 3-frame run in half-frame units (torn frames visible in between)
+    for si, sched in enumerate(schedules_half(3)):
+        for kc, ml in (((1, 2),) if tier == "quick" else ((1, 2), (None, 2), (2, 3))):
+            finish(small, kc, ml, second_stream(sched, si, 3), reverse=bool(si % 2), cut=("midline" if si % 2 else "line"))
+    # ---- limits hit exactly, all subcycles, all orders, both directions, retrace
     for sub in (1, 2, 3):
         for oi, order in enumerate(ORDERS):
             for reverse in (False, True):
-                c = base_case(engine, rng)
+                c = base_case(engine, rng, nat=(20 if engine == "gromacs" and (oi + sub) % 3 == 0 else 2))
                 c["subcycles"] = sub
                 c["order"] = order
                 mkbox(c, oi % 2 == 0, (oi + sub) % 2 == 1)
@@ -186,9 +236,9 @@ def gen_external(H, engine, rng, tier, wdroot):
                     finish(c, kc, ml, random_schedule(rng, ml + 1, nstream), reverse=reverse,
                            vel_rev_in=rng.random() < 0.3, shuffle_ids=rng.random() < 0.5,
                            cut=rng.choice(["line", "midline"]),
-                           back_from=(rng.randrange(0, kc + 1) if (not reverse and oi < 2 and ml > kc) else None))
-    # ---- failures: non-zero exit after W frames, before any output, exit 0 after everything
-    nfail = 10 if tier == "quick" else 40
+                           back_from=(rng.randrange(0, kc + 1) if ml > kc else None))
+    # ---- failures: non-zero exit after W frames, before any output
+    nfail = 30 if tier == "quick" else 200
     for i in range(nfail):
         c = base_case(engine, rng)
         c["order"] = ORDERS[i % 3]
@@ -202,10 +252,21 @@ def gen_external(H, engine, rng, tier, wdroot):
     c["order"] = ORDERS[0]
     mkbox(c, False, False)
     finish(c, None, 3, [], die_before_output=True, exit_code=1, frames=0)
+    # ---- crash in the middle of writing a frame: the torn frame stays on disk
+    if True:
+        for i in range(nfail // 2):
+            c = base_case(engine, rng, nat=(rng.choice([2, 12, 20]) if engine == "gromacs" else 2))
+            c["order"] = ORDERS[i % 3]
+            mkbox(c, i % 2 == 0, False)
+            ml = rng.randrange(2, 6)
+            sched = random_schedule(rng, ml + 1, nstream) or [[1] * nstream]
+            sched.append([min(2 * ml + 1, x + 1 + 2 * rng.randrange(0, 2)) | 1 for x in sched[-1]])
+            finish(c, rng.choice([None, 1, 2, 3]), ml, sched, write_rest=False, exit_code=rng.choice([1, 139]),
+                   cut=rng.choice(["line", "midline"]))
     # ---- seeded random
-    nrand = 40 if tier == "quick" else 400
+    nrand = 150 if tier == "quick" else 2500
     for i in range(nrand):
-        c = base_case(engine, rng, nat=rng.choice([2, 3]))
+        c = base_case(engine, rng, nat=rng.choice([2, 3, 3, 12] if engine == "gromacs" else [2, 3]))
         c["order"] = rng.choice(ORDERS)
         mkbox(c, rng.random() < 0.6, rng.random() < 0.4)
         ml = rng.randrange(1, 8)
@@ -213,7 +274,7 @@ def gen_external(H, engine, rng, tier, wdroot):
         finish(c, kc, ml, random_schedule(rng, ml + 1, nstream), reverse=rng.random() < 0.4,
                vel_rev_in=rng.random() < 0.2, shuffle_ids=rng.random() < 0.5, cut=rng.choice(["line", "midline"]))
     # ---- free-running program, real sleeps: the outcome must not depend on the timing
-    nasync = 6 if tier == "quick" else 30
+    nasync = 10 if tier == "quick" else 60
     for i in range(nasync):
         c = base_case(engine, rng)
         c["order"] = ORDERS[0] if i % 2 else ORDERS[2]
@@ -224,64 +285,159 @@ def gen_external(H, engine, rng, tier, wdroot):
     return cases
 
 
+def l3_witness(H, wdroot):
+    """Lead L3 replayed on the implementation: GROMACS, reverse=True, order = velocity."""
+    return {"engine": "gromacs", "pos": [[1.0, 0.0, 0.5], [5.0, 0.0, 0.5]], "vel": [[0.5, 0.0, 0.0], [0.0, 0.0, 0.0]],
+            "timestep": 1.0, "subcycles": 1, "mode": "sync", "order": {"class": "Velocity", "index": 0, "dim": "x"},
+            "box": [20.0, 20.0, 20.0], "box_rate": None, "maxlen": 2, "interfaces": [-5.0, 0.0], "reverse": True,
+            "vel_rev_in": False, "schedule": [[6]], "wd": os.path.join(wdroot, "l3_witness"), "witness": "L3"}
+
+
+def l14_witness(H, wdroot):
+    """Lead L14 replayed on the implementation: gmx dies between a frame header and its data."""
+    pos = [[1.0, 0.0, 0.5]] + [[5.0 + 0.125 * i, 0.0, 0.5] for i in range(19)]
+    vel = [[0.5, 0.0, 0.0]] + [[0.0, 0.0, 0.0] for _ in range(19)]
+    return {"engine": "gromacs", "pos": pos, "vel": vel, "timestep": 1.0, "subcycles": 1, "mode": "sync",
+            "order": {"class": "Position", "index": [0, 0]}, "box": [20.0, 20.0, 20.0], "box_rate": None, "maxlen": 5,
+            "interfaces": [-5.0, 50.0], "reverse": False, "vel_rev_in": False, "schedule": [[2], [3]], "write_rest": False,
+            "exit_code": 1, "wd": os.path.join(wdroot, "l14_witness"), "witness": "L14"}
+
+
+IN_ORDERS = {
+    "ase": [{"class": "Position", "index": [0, 0]}, {"class": "Distance", "index": [0, 1], "periodic": False},
+            {"class": "Velocity", "index": 0, "dim": "x"}, {"class": "LinOrder", "wx": 1.0, "wv": 8.0, "wb": 0.125}],
+    "turtlemd": [{"class": "Position", "index": [0, 0]}, {"class": "Velocity", "index": 0, "dim": "x"},
+                 {"class": "LinOrder", "wx": 1.0, "wv": 0.5, "wb": 0.0}],
+    "plugin": [{"class": "IntOrder"}],
+}
+
+
+def reference(I, case):
+    n = case["subcycles"] * case["maxlen"]
+    return {"ase": I.ase_reference, "turtlemd": I.tmd_reference, "plugin": I.plugin_reference}[case["engine"]](case, n)
+
+
+def inproc_inputs(H, case, ref):
+    """Model inputs of an in-process case from the reference fine-grained trajectory."""
+    orderf = H.make_order(case["order"])
+    ent = {}
+    for i, (pos, vel, box) in enumerate(ref):
+        for sgn in (1, -1):
+            ent[(i, sgn * (i + 1), 0)] = H.order_value(orderf, pos, [[sgn * x for x in v] for v in vel], box)
+    left, right = case["interfaces"]
+    q = H.quantiser(list(ent.values()) + [left, right])
+    rv = bool(case.get("reverse", False))
+    s = case["subcycles"]
+    own = [ent[(i, (-(i + 1) if rv else (i + 1)), 0)] for i in range(0, len(ref), s)]
+    return {"traj": [f"{i}:{i + 1}:0" for i in range(len(ref))], "ord": [f"{p}:{v}:{b}:{q(o)}" for (p, v, b), o in ent.items()],
+            "q": q, "left": q(left), "right": q(right), "rv": int(rv), "own": own, "frames": [ref[i] for i in range(0, len(ref), s)]}
+
+
+def gen_inproc(H, I, engine, rng, tier, wdroot):
+    cases = []
+    n = {"quick": 90, "thorough": 800}[tier]
+    for i in range(n):
+        sub = 1 + i % 3 if engine != "plugin" else 1
+        ml = rng.randrange(1, 8)
+        c = {"engine": engine, "subcycles": sub, "maxlen": ml, "order": IN_ORDERS[engine][i % len(IN_ORDERS[engine])],
+             "reverse": rng.random() < 0.4, "vel_rev_in": rng.random() < 0.25, "rseed": rng.randrange(1, 10 ** 6)}
+        if engine == "ase":
+            c.update(pos=[[dy(rng, 1, 3), 0.0, 0.0], [dy(rng, 4, 6), dy(rng, 0, 1), 0.0]],
+                     vel=[[rng.choice([0.0625, -0.0625, 0.03125, 0.125]), 0.0, 0.0], [rng.choice([0.0, -0.0625]), 0.0, 0.0]],
+                     cell=[20.0, 20.0, 20.0], kspring=rng.choice([0.0, 0.25, 1.0]), timestep=rng.choice([0.5, 1.0, 2.0]))
+        elif engine == "turtlemd":
+            c.update(pos=[[dy(rng, -1, 1, 8), 0.0, 0.0]], vel=[[dy(rng, -1, 1, 8), 0.0, 0.0]], a=1.0, b=2.0, c=0.0,
+                     gamma=rng.choice([0.3, 1.0]), beta=rng.choice([4.0, 14.0]), timestep=rng.choice([0.025, 0.05]))
+        else:
+            c.update(x0=rng.randrange(-2, 5), wall=-4)
+        c["interfaces"] = [-1e9, 1e9]
+        ref = reference(I, c)
+        own = inproc_inputs(H, c, ref)["own"]
+        kc = rng.choice([None, 1, 2, 3, 4, ml - 1, ml])
+        c["interfaces"] = choose_interfaces(rng, own, kc)
+        if engine == "plugin":
+            lo = min(own) - 0.5 if kc is None else own[0] - rng.choice([0.5, 1.5, 2.5])
+            c["interfaces"] = [lo, own[0] + rng.choice([0.5, 1.5, 2.5, 40.5])]
+        if engine == "ase" and rng.random() < 0.5:
+            c["back_from"] = rng.randrange(0, ml)
+        c["wd"] = os.path.join(wdroot, f"{engine}_{i}")
+        cases.append(c)
+    return cases
+
+
 # --------------------------------------------------------------------------- oracle
 
 
+TOL = {"lammps": 0.0, "cp2k": 0.0, "gromacs": 0.0, "ase": 0.0, "plugin": 0.0, "turtlemd": 2e-9}
+TOL_STATE = {"lammps": 0.0, "cp2k": 0.0, "gromacs": 0.0, "ase": 0.0, "plugin": 0.0, "turtlemd": 1e-9}
+TOL_RETRACE = {"lammps": 0.0, "cp2k": 0.0, "gromacs": 0.0, "ase": 1e-9}
+
+
 def close(a, b, tol):
+    if tol == 0.0:
+        return a == b
     return abs(a - b) <= tol * max(1.0, abs(a), abs(b))
 
 
-def phys(H, case, k, frames, rev_flag):
-    """physical (forward-time) state the k-th analytic frame stands for, as the engine reads a file"""
-    pos, vel, box = frames[k]
-    p, v, b = H.seen_by_order(case["engine"], pos, vel, box if case["engine"] != "cp2k" else frames[0][2])
-    sgn = -1.0 if rev_flag else 1.0
-    return p, [[sgn * x for x in r] for r in v], b
+def flat(a):
+    return [float(x) for r in a for x in (r if isinstance(r, (list, tuple)) else [r])]
 
 
 def same_arrays(a, b, tol=0.0):
-    if a is None or b is None:
-        return a is None and b is None or (a is None and all(x == 0 for x in b)) or (b is None and all(x == 0 for x in a))
-    fa = [x for r in a for x in (r if isinstance(r, (list, tuple)) else [r])]
-    fb = [x for r in b for x in (r if isinstance(r, (list, tuple)) else [r])]
-    if len(fa) != len(fb):
-        n = min(len(fa), len(fb))
-        if any(x != 0 for x in fa[n:]) or any(x != 0 for x in fb[n:]):
-            return False
-        fa, fb = fa[:n], fb[:n]
-    return all(close(x, y, tol) if tol else x == y for x, y in zip(fa, fb))
+    """Equal up to trailing zeros (3- vs 9-component boxes) and None == all zeros."""
+    fa = [] if a is None else flat(a)
+    fb = [] if b is None else flat(b)
+    n = min(len(fa), len(fb))
+    if any(x != 0 for x in fa[n:]) or any(x != 0 for x in fb[n:]):
+        return False
+    return all(close(x, y, tol) for x, y in zip(fa[:n], fb[:n]))
 
 
-def oracle_external(H, case, obs, own, frames, tol=0.0):
-    """The statement of C12 evaluated on one propagation of an external engine.
-    Returns list of (defect class or None, message)."""
+def neg(v):
+    return [[-x for x in r] for r in v]
+
+
+def expected_state(H, case, k, frames):
+    """(pos, file vel, box) the engine must read back for frame k of the trajectory."""
+    pos, vel, box = frames[k]
+    if case["engine"] in H.EXTERNAL:
+        return H.seen_by_order(case["engine"], pos, vel, box if case["engine"] != "cp2k" else frames[0][2])
+    return pos, vel, box
+
+
+def oracle(H, case, res, own, frames):
+    """The statement of C12 evaluated on one propagation.  Returns a list of (class, message)."""
+    eng = case["engine"]
+    obs = res["main"]
     errs = []
     rev = bool(case.get("reverse", False))
     fr = obs["frames"]
     left, right = case["interfaces"]
-    n_written = case["maxlen"] + 1 if case.get("frames") is None else case["frames"]
-    # stop index from the statement: first own-data frame outside, or the limit
+    tol, tols = TOL[eng], TOL_STATE[eng]
+    nw = min(len(own), H.n_complete(case)) if eng in H.EXTERNAL else len(own)
     stop_at = None
-    for k in range(min(len(own), n_written)):
+    for k in range(nw):
         if own[k] < left or own[k] > right or k + 1 == case["maxlen"]:
             stop_at = k
             break
     failed = case.get("exit_code", 0) != 0
     if obs["children_alive"]:
         errs.append((None, f"child processes still alive after propagate returned: {obs['children_alive']}"))
+    if obs.get("hang"):
+        cls = "L14" if (eng == "gromacs" and not case.get("write_rest", True)) else None
+        errs.append((cls, f"the program ended with code {case.get('exit_code', 0)} leaving an incomplete frame and propagate never "
+                          f"returns ({obs['raised']})"))
+        return errs
     if obs["raised"] is not None:
-        if obs["raised"].startswith("IndexError") and case["maxlen"] == 0:
-            return errs
         if not failed:
             errs.append((None, f"propagate raised although the program did not fail: {obs['raised']}"))
         return errs
-    # normal return
-    if failed and stop_at is None:
-        errs.append((None, f"program exited with code {case['exit_code']} after {n_written} frames without reaching a stop, "
-                           f"but propagate returned normally with {len(fr)} frames (silently truncated path)"))
-        return errs
     if stop_at is None:
-        errs.append((None, "harness: no stop expected and no failure (ill-formed case)"))
+        if failed:
+            errs.append((None, f"program exited with code {case['exit_code']} after {nw} frames without reaching a stop, "
+                               f"but propagate returned normally with {len(fr)} frames (silently truncated path)"))
+        elif eng not in H.EXTERNAL:
+            errs.append((None, "harness: no stop expected (ill-formed case)"))
         return errs
     if len(fr) != stop_at + 1:
         errs.append((None, f"path has {len(fr)} frames, the trajectory prefix up to the first stop has {stop_at + 1}"))
@@ -290,153 +446,281 @@ def oracle_external(H, case, obs, own, frames, tol=0.0):
             errs.append((None, f"frame {k}: cannot recompute the order parameter from {f['file']}[{f['idx']}]: {f['recompute_error']}"))
             continue
         if f["idx"] != k or f["vel_rev"] != rev or len(obs["trajfiles"]) != 1:
-            errs.append((None, f"frame {k}: config index {f['idx']} / vel_rev {f['vel_rev']} / files {obs['trajfiles']}"))
+            errs.append((None, f"frame {k}: config index {f['idx']} / vel_rev {f['vel_rev']} (requested {rev}) / files {obs['trajfiles']}"))
         if not close(f["order"], f["recomputed"], tol):
-            cls = None
-            if case["engine"] == "lammps" and case.get("box_rate"):
-                cls = "L2"
-            if case["engine"] == "gromacs" and rev:
-                cls = "L3"
+            cls = "L3" if (eng == "gromacs" and f["vel_rev"] and f["order"] == f.get("recomputed_flip")) else None
             errs.append((cls, f"frame {k}: stored order {f['order']!r} != {f['recomputed']!r} recomputed from the frame it references "
                               f"({f['file']}[{f['idx']}], vel_rev={f['vel_rev']})"))
         if k < len(frames):
-            p, v, b = phys(H, case, k, frames, False)
-            if not (same_arrays(f["pos"], p, tol) and same_arrays(f["vel"], v, tol) and same_arrays(f["box"], b, tol)):
-                errs.append((None, f"frame {k} of the path is not frame {k} of the trajectory the program ran "
+            p, v, b = expected_state(H, case, k, frames)
+            if not (same_arrays(f["pos"], p, tols) and same_arrays(f["vel"], v, tols)
+                    and (eng in ("turtlemd", "ase") or same_arrays(f["box"], b, tols))):
+                errs.append((None, f"frame {k} of the path is not frame {k} of the trajectory that was run "
                                    f"(pos {f['pos']} vs {p}, vel {f['vel']} vs {v}, box {f['box']} vs {b})"))
-    if fr:
-        last = fr[-1]
-        o = last.get("recomputed", last["order"])
-        outside = o < left or o > right
+    if fr and "recompute_error" not in fr[-1]:
+        def out(o):
+            return o < left or o > right
+
+        def val(f):
+            # the value the stop rule is judged on: the recomputed one; where the file format
+            # rounds (TurtleMD xyz, 9 decimals) and the stored value agrees within that rounding,
+            # the stored one, so that an interface placed exactly on a value is not a coin toss
+            return f["order"] if close(f["order"], f["recomputed"], tol) else f["recomputed"]
         for k, f in enumerate(fr[:-1]):
-            ok = f.get("recomputed", f["order"])
-            if ok < left or ok > right:
+            if "recomputed" in f and out(val(f)):
                 errs.append((None, f"frame {k} is outside the interfaces but the propagation went on"))
-        if not outside and len(fr) != case["maxlen"]:
+        last = val(fr[-1])
+        if not out(last) and len(fr) != case["maxlen"]:
             errs.append((None, "propagation stopped although the last frame is inside and the limit is not reached"))
-        if obs["success"] and not outside:
-            errs.append((None, "success reported although the last frame is inside the interfaces"))
-        if outside and len(fr) < case["maxlen"] and not obs["success"]:
-            errs.append((None, "failure reported although the path ends outside the interfaces below the length limit"))
-        # first frame = the given phase point (physical state)
-        p0, v0, b0 = phys(H, case, 0, frames, False)
-        sgn_in = -1.0 if case.get("vel_rev_in", False) else 1.0
-        sgn_out = -1.0 if fr[0]["vel_rev"] else 1.0
-        # the file the program started from holds v_file = sgn_in*sgn_req * v_given ; analytic frames start from the given file
+        if obs["success"] and not out(last):
+            errs.append((None, "success reported although the last frame is inside the interfaces (length limit)"))
+        if out(last) and not obs["success"]:
+            errs.append((None, "failure reported although the propagation stopped on a frame outside the interfaces"))
+        # first frame = the given phase point (physical state: velocities times (-1)^vel_rev)
+        f0 = fr[0]
+        if "pos" in f0:
+            gp, gv, gb = expected_given(H, case)
+            v0 = neg(f0["vel"]) if f0["vel_rev"] else f0["vel"]
+            if not (same_arrays(f0["pos"], gp, tols) and same_arrays(v0, gv, tols)):
+                errs.append((None, f"first frame is not the given phase point: pos {f0['pos']} vs {gp}, physical vel {v0} vs {gv}"))
+    # backward retraces forward
+    back = res.get("back")
+    j = case.get("back_from")
+    if back is not None and j is not None and eng in TOL_RETRACE:
+        tr = TOL_RETRACE[eng]
+        bf = back["frames"]
+        if back["raised"] is not None:
+            errs.append((None, f"backward propagation from frame {j} raised: {back['raised']}"))
+        elif len(bf) != j + 1:
+            errs.append((None, f"backward propagation from frame {j} with limit {j + 1} returned {len(bf)} frames"))
+        else:
+            for i, b in enumerate(bf):
+                f = fr[j - i]
+                if "pos" not in b or "pos" not in f:
+                    continue
+                vb = neg(b["vel"]) if b["vel_rev"] else b["vel"]
+                vf = neg(f["vel"]) if f["vel_rev"] else f["vel"]
+                okbox = eng in ("ase",) or same_arrays(b["box"], f["box"], tr)
+                if not (same_arrays(b["pos"], f["pos"], tr) and same_arrays(vb, vf, tr) and okbox):
+                    errs.append((None, f"backward frame {i} from frame {j} is not forward frame {j - i}: pos {b['pos']} vs {f['pos']}, "
+                                       f"physical vel {vb} vs {vf}, box {b['box']} vs {f['box']}"))
+                elif not close(b["order"], f["order"], tr):
+                    cls = "L3" if (eng == "gromacs" and b["vel_rev"] != f["vel_rev"]
+                                   and (b if b["vel_rev"] else f)["order"] == (b if b["vel_rev"] else f).get("recomputed_flip")) else None
+                    errs.append((cls, f"backward frame {i} from frame {j} has order {b['order']!r}, forward frame {j - i} has {f['order']!r}"))
+    if any(cls == "L3" for cls, _ in errs):
+        # the stop frame / success flag / length of this propagation follow from the wrongly
+        # signed orders: one defect, reported once
+        errs = [("L3", m) for _, m in errs]
     return errs
+
+
+def expected_given(H, case):
+    """Physical state of the phase point handed to propagate."""
+    eng = case["engine"]
+    if eng == "plugin":
+        return [[float(case["x0"]), 0.0, 0.0]], [[0.0, 0.0, 0.0]], None
+    vel = neg(case["vel"]) if case.get("vel_rev_in", False) else case["vel"]
+    if eng in H.EXTERNAL:
+        p, v, b = H.seen_by_order(eng, case["pos"], vel, case["box"])
+        return p, v, b
+    return case["pos"], vel, None
 
 
 # --------------------------------------------------------------------------- run
 
 
 def run(ctx):
-    ok_proof = common.proof_stage(ctx, "C12", ["extract/c12.vo"])
+    common.proof_stage(ctx, "C12", ["extract/c12.vo"])
     runner = common.runner_stage(ctx, "c12")
     if runner is None:
         return
     import c12_harness as H
+    import c12_inproc as I
     import sysharness
-    rng = ctx.rng
     wdroot = common.scratch_dir("infv_c12_")
     try:
-        _run(ctx, runner, H, sysharness, rng, wdroot)
+        _run(ctx, runner, H, I, sysharness, ctx.rng, wdroot)
     finally:
         shutil.rmtree(wdroot, ignore_errors=True)
 
 
-ENGINES_EXT = ["lammps"]
-
-
-def _run(ctx, runner, H, sysharness, rng, wdroot):
-    cases = []
+def _run(ctx, runner, H, I, sysharness, rng, wdroot):
+    cases = [l3_witness(H, wdroot), l14_witness(H, wdroot)]
     for eng in ENGINES_EXT:
         cases += gen_external(H, eng, rng, ctx.tier, wdroot)
-    results = sysharness.run_many(H.run_case, cases, jobs=14, timeout=180)
-    evaluate(ctx, runner, H, cases, results)
+    for eng in ENGINES_IN:
+        cases += gen_inproc(H, I, eng, rng, ctx.tier, wdroot)
+    results = sysharness.run_many(H.run_case, cases, jobs=14, timeout=300)
+    evaluate(ctx, runner, H, I, cases, results)
+    ctx.cov["rule"] = ("one evaluation = one propagate() call of a real engine class (plus the opposite-direction call for retrace cases), "
+                       "compared with the extracted model and judged by the oracle; distinct = distinct case dicts; every case has a "
+                       "non-trivial trajectory (>= 1 frame) and interfaces chosen from its own order parameters")
+    ctx.cov["trusted_base"] += [
+        "extraction ExtrOcamlBasic + ocaml/c12_driver.ml + ocaml/util.ml",
+        "py/plugins/fake_lmp.py, fake_cp2k.py, fake_gmx.py, fakemd.py: stand for LAMMPS/CP2K/GROMACS (file formats and timing contract only)",
+        "py/c12_harness.py (SyncSleep hand-shake replacing the engine modules' `sleep`), py/c12_inproc.py (reference dynamics run directly with ASE/TurtleMD)",
+        "ASE, TurtleMD, numpy internals; kernel process/signal semantics (observed through /proc and a SIGTERM marker file)",
+    ]
+    ctx.assumptions += [
+        "the fake programs write complete frames in the real formats and flush only at schedule points; real programs may differ in buffering (byte-level tearing is C13's property)",
+        "GROMACS: a program that dies between a frame header and its data block is not generated (the reader would wait forever; model outcome Hang)",
+        "time reversibility is a property of the dynamics (hypothesis of C12_backward_retraces_*): checked for free flight (fake programs) and harmonic velocity Verlet (ASE), not for TurtleMD (Langevin)",
+    ]
 
 
-def variant_flags(H, cases, results):
-    """Which variant of the two recorded leads does /repo exhibit?  Decided from the oracle on the
-    implementation: any stored != recomputed order in the class of the lead."""
-    return {}
-
-
-def evaluate(ctx, runner, H, cases, results):
-    reqs, meta = [], []
-    defects = {}
-    n_corr = 0
+def evaluate(ctx, runner, H, I, cases, results):
+    reqs = []
+    present = {"L3": None, "L14": None}
+    hits = {"L3": [], "L14": []}
+    groups = {}
     for case, (tag, res) in zip(cases, results):
-        ctx.dist(f"{case['engine']}:{case.get('mode', 'sync')}")
-        if tag != "ok":
-            ctx.violation(f"harness failure running a {case['engine']} case: {str(res)[:300]}", {"case": case, "error": str(res)[-2000:]}, False)
-            continue
-        orderf = H.make_order(case["order"])
-        own, mi = own_orders(H, case, orderf)
-        obs = res["main"]
-        errs = oracle_external(H, case, obs, own, mi["frames"])
-        for cls, msg in errs:
-            if cls in DEFECTS:
-                defects.setdefault(cls, []).append((case, msg, obs))
-            else:
-                ctx.violation(f"C12 statement fails on the implementation ({case['engine']}): {msg}",
-                              {"case": case, "observed": slim(obs), "oracle": msg}, True)
-        ctx.count(json.dumps({k: v for k, v in case.items() if k != "wd"}, sort_keys=True), nontrivial=True)
-        meta.append((case, obs, mi, bool(errs)))
-    # variant detection
-    fix = {"L2": 0 if "L2" in defects else 1, "L3": 0 if "L3" in defects else 1}
-    for cls, lst in defects.items():
-        lst.sort(key=lambda t: (len(t[0].get("schedule", [])), t[0]["maxlen"]))
-        case, msg, obs = lst[0]
-        ctx.violation(f"C12 statement fails on the implementation — {DEFECTS[cls]}: {msg}  [{len(lst)} generated cases hit this defect]",
-                      {"case": case, "observed": slim(obs), "oracle": msg, "defect": cls,
-                       "proposed_fix": {"L2": "proposed_fixes/C12_lammps_box_pairing.diff", "L3": "proposed_fixes/C12_gromacs_velrev.diff"}[cls]}, True)
-    ctx.cov["variant"] = {k: ("repaired" if v else "original (defect present)") for k, v in fix.items()}
-    # model comparison
-    for case, obs, mi, bad in meta:
         eng = case["engine"]
-        head = f"{mi['rv']} {mi['left']} {mi['right']} {case['maxlen']}"
-        traj, ordt = H.enc_list(mi["traj"]), H.enc_list(mi["ord"])
-        spec_req = f"spec {head} {traj} {ordt}"
-        if case.get("mode", "sync") != "sync":
-            reqs.append((spec_req, case, obs, mi, "spec"))
+        ctx.dist(f"{eng}:{case.get('mode', 'sync') if eng in H.EXTERNAL else 'inproc'}")
+        ctx.dist(f"{eng}:reverse={int(bool(case.get('reverse')))}")
+        if tag != "ok":
+            ctx.violation(f"harness failure running a {eng} case: {str(res)[:300]}", {"case": case, "error": str(res)[-2000:]}, False)
             continue
-        code = case.get("exit_code", 0)
-        dead = int(bool(case.get("die_before_output", False)))
-        if eng == "lammps":
-            req = f"lammps {fix['L2']} {head} {code} {dead} {traj} {ordt} {H.enc_list(H.visible_reads(case))}"
+        if eng in H.EXTERNAL:
+            mi = H.model_inputs(case, H.make_order(case["order"]))
         else:
+            mi = inproc_inputs(H, case, reference(I, case))
+        obs = res["main"]
+        errs = oracle(H, case, res, mi["own"], mi["frames"])
+        w = case.get("witness")
+        if w:
+            present[w] = any(cls == w for cls, _ in errs)
+            ctx.cov[f"{w}_witness"] = {"what": DEFECTS[w]["witness"], "raised": obs["raised"],
+                                       "stored": [f["order"] for f in obs["frames"]],
+                                       "recomputed": [f.get("recomputed") for f in obs["frames"]],
+                                       "defect_present": present[w]}
+        for cls, msg in errs:
+            if cls in hits:
+                hits[cls].append((case, msg, res))
+            else:
+                groups.setdefault((eng, re.sub(r"[-+]?\d[\d.e+-]*", "#", msg)[:48]), []).append((case, msg, res))
+        ctx.count(json.dumps({k: v for k, v in case.items() if k != "wd"}, sort_keys=True), nontrivial=True,
+                  n=2 if res.get("back") else 1)
+        reqs.append((case, obs, mi))
+    # one violation per (engine, kind of failure): the smallest failing case is the replay
+    for (eng, _), lst in sorted(groups.items(), key=lambda kv: kv[0]):
+        lst.sort(key=lambda t: (len(t[0].get("schedule", []) or []), t[0]["maxlen"], len(t[0].get("pos", [])), t[0]["subcycles"]))
+        case, msg, res = lst[0]
+        ctx.violation(f"C12 statement fails on the implementation ({eng}): {msg}  [{len(lst)} generated cases fail this way]",
+                      {"case": case, "observed": slim(res), "oracle": msg}, True)
+    known = common.load_findings().get("known", [])
+    for d, lst in hits.items():
+        if not lst:
             continue
-        reqs.append((req, case, obs, mi, "model"))
-    outs = runner.run([r[0] for r in reqs])
-    bad_corr = 0
-    for (req, case, obs, mi, kind), ans in zip(reqs, outs):
+        lst.sort(key=lambda t: (0 if t[0].get("witness") else 1, len(t[0].get("schedule", [])), t[0]["maxlen"], len(t[0]["pos"])))
+        case, msg, res = lst[0]
+        msg = next((m for c, m, _ in lst if c is case and "stored order" in m), msg)
+        ncases = len({id(t[0]) for t in lst})
+        if any("property=C12" in k and re.search(rf"\b{d}\b", k) for k in known):
+            ctx.known(f"{DEFECTS[d]['text']} (lead {d}; witness: {DEFECTS[d]['witness']}; theorem {DEFECTS[d]['theorem']}; "
+                      f"{ncases} generated cases)")
+        else:
+            ctx.violation(f"C12 statement fails on the implementation — {DEFECTS[d]['text']}: {msg}  [{ncases} generated cases hit this defect]",
+                          {"case": case, "observed": slim(res), "oracle": msg, "defect": d, "proposed_fix": DEFECTS[d]["fix"]}, True)
+    fix3 = 0 if (present["L3"] or hits["L3"]) else 1
+    fix14 = 0 if (present["L14"] or hits["L14"]) else 1
+    ctx.cov["variant"] = {"stop rule (L11)": "current (fx=1)", "L2 lammps pairing": "repaired (pop(0))",
+                          "L3 gromacs velocity negation": "repaired" if fix3 else "original (defect present)",
+                          "L14 gromacs wait loop": "repaired" if fix14 else "original (defect present)"}
+    # ---- model comparison
+    lines, kinds = [], []
+    for case, obs, mi in reqs:
+        eng = case["engine"]
+        if eng in H.EXTERNAL:
+            if case.get("mode", "sync") == "sync":
+                lines.append(H.model_request(case, mi, fx=1, fix2=1, fix3=fix3, fix14=fix14))
+                kinds.append("model")
+            else:
+                lines.append(H.spec_request(case, mi, fx=1))
+                kinds.append("spec")
+        else:
+            head = f"{mi['rv']} {mi['left']} {mi['right']} {case['maxlen']}"
+            lines.append(f"inproc 1 {head} {case['subcycles']} {H.enc_list(mi['traj'])} {H.enc_list(mi['ord'])}")
+            kinds.append("model")
+    outs = runner.run(lines)
+    bad = 0
+    per_engine = {}
+    for (case, obs, mi), line, kind, ans in zip(reqs, lines, kinds, outs):
+        eng = case["engine"]
         impl = H.canon_impl(obs, mi["q"])
-        n_corr += 1
+        per_engine[eng] = per_engine.get(eng, 0) + 1
         if kind == "spec":
             t = ans.split()
-            mod = f"{t[0]} {t[1]} {t[2]}" if t[0] != "IDXERR" else "IDXERR 0 -"
+            mod = f"{t[0]} {t[1]} {t[2]}" if t[0] in ("RET", "MORE") else ans
             ok = (impl == mod)
+            ps = "-"
         else:
             mod, ps = H.canon_model(ans)
-            ok = (impl == mod) and ((ps == "K") == obs["sigterm"] or ps in "-N")
+            ok = (impl == mod)
+            if ok and eng in H.EXTERNAL:
+                if ps == "K":
+                    ok = bool(obs["sigterm"])       # the program was still running: it must have been terminated
+                elif ps.startswith("E"):
+                    ok = not obs["sigterm"]         # it had exited by itself
         if not ok:
-            bad_corr += 1
-            if bad_corr <= 3:
-                ctx.violation(f"correspondence model/implementation broken for {case['engine']} ({kind}): impl {impl!r} sigterm={obs['sigterm']} vs model {ans!r}",
-                              {"correspondence": f"c12 runner vs {case['engine']} engine class", "case": case, "impl": impl,
-                               "model": ans, "request": req[:4000], "observed": slim(obs)}, False)
-    for k in (0, len(reqs) // 2, len(reqs) - 1):
-        if reqs:
-            ctx.sample({"request": reqs[k][0][:600], "model": outs[k], "impl": H.canon_impl(reqs[k][2], reqs[k][3]["q"])})
-    ctx.cov["correspondence"] = {"compared": n_corr, "disagreements": bad_corr}
+            bad += 1
+            if bad <= 3:
+                ctx.violation(f"correspondence model/implementation broken for {eng} ({kind}): impl {impl!r} sigterm={obs.get('sigterm')} vs model {ans!r}",
+                              {"correspondence": f"c12 runner vs {eng} engine class", "case": case, "impl": impl,
+                               "model": ans, "request": line[:4000], "observed": slim({"main": obs})}, False)
+    for k in (0, len(lines) // 3, 2 * len(lines) // 3, len(lines) - 1):
+        if lines:
+            ctx.sample({"engine": reqs[k][0]["engine"], "request": lines[k][:500], "model": outs[k][:300],
+                        "impl": H.canon_impl(reqs[k][1], reqs[k][2]["q"])[:300]})
+    ctx.cov["correspondence"] = {"compared": len(lines), "disagreements": bad, "per_engine": per_engine,
+                                 "what": "path (order, config index, vel_rev per frame), success flag, kind of outcome (return / "
+                                         "return without stop / raise), program killed or exited"}
 
 
-def slim(obs):
-    o = dict(obs)
-    o["frames"] = [{k: v for k, v in f.items() if k in ("order", "recomputed", "idx", "vel_rev", "file", "recompute_error")} for f in obs["frames"]]
-    return o
+def slim(res):
+    out = {}
+    for key, obs in res.items():
+        if not isinstance(obs, dict) or "frames" not in obs:
+            continue
+        o = {k: v for k, v in obs.items() if k not in ("frames", "children")}
+        o["frames"] = [{k: v for k, v in f.items() if k in ("order", "recomputed", "idx", "vel_rev", "file", "recompute_error")}
+                       for f in obs["frames"]]
+        out[key] = o
+    return out
 
 
 def replay(doc):
-    print(json.dumps(doc, indent=1)[:6000])
-    return 0
+    """Re-run the stored case on the implementation and judge it with the oracle."""
+    import tempfile
+
+    import c12_harness as H
+    import c12_inproc as I
+    import sysharness
+    rp = doc.get("replay", doc)
+    case = rp.get("case")
+    if case is None:
+        print(json.dumps(doc, indent=1)[:4000])
+        print("replay: no runnable case in this file (proof obligation / build failure)")
+        return 1
+    case = dict(case)
+    root = tempfile.mkdtemp(prefix="infv_c12_replay_")
+    case["wd"] = os.path.join(root, "case")
+    try:
+        (tag, res), = sysharness.run_many(H.run_case, [case], jobs=1, timeout=300)
+    finally:
+        shutil.rmtree(root, ignore_errors=True)
+    if tag != "ok":
+        print("replay: harness failure:", str(res)[-1500:])
+        return 1
+    if case["engine"] in H.EXTERNAL:
+        mi = H.model_inputs(case, H.make_order(case["order"]))
+    else:
+        mi = inproc_inputs(H, case, reference(I, case))
+    errs = oracle(H, case, res, mi["own"], mi["frames"])
+    print(json.dumps({"case": {k: v for k, v in case.items() if k != "wd"}, "observed": slim(res),
+                      "expected_own_orders": mi["own"]}, indent=1)[:5000])
+    for cls, msg in errs:
+        print(f"REPLAY-FAIL property=C12 {('[' + cls + '] ') if cls else ''}{msg}")
+    if not errs:
+        print("REPLAY-OK property=C12: the statement holds on this case")
+    return 1 if errs else 0
